@@ -171,6 +171,8 @@ func cmdWorker(args []string) int {
 		return 2
 	}
 	if spec.Worker != nil {
+		kn := loadKnown()
+		chain.IsKnown = func(sig string) bool { return kn.match(sig) != nil }
 		return spec.Worker(chain.WorkerArgs{Prop: *prop, Tier: *tier, Base: *base, Offset: *offset, Stride: *stride, Chain: *chainID, Budget: *budget, MaxRuns: *maxRuns, Out: *out, ReplayDir: *replayDir})
 	}
 	f, err := os.Create(*out)
